@@ -346,10 +346,10 @@ fn q_ordered_shared_push_pop() {
 // (q_ordered_pop_local_contract, q_ordered_shared_push_pop); at pop()'s call sites only the contract is known.
 pub(crate) static mut STUB_LOCAL: Option<It> = None; // what pop_local will answer
 pub(crate) static mut STUB_SHARED: Option<It> = None; // what the shared pop will answer
-pub(crate) static mut ORDER: [u8; 4] = [0; 4]; // consultation order: 1 = shared, 2 = local
-pub(crate) static mut NORDER: usize = 0;
-pub(crate) static mut HANDED: [(c_longlong, It); 4] = [(0, 0); 4]; // what the shared push was handed, in order
-pub(crate) static mut NHANDED: usize = 0;
+pub(crate) static mut ORDER: [u8; 4] = [0xA1, 0xA2, 0xA3, 0xA4]; // consultation order: 1 = shared, 2 = local
+pub(crate) static mut NORDER: usize = 0x7301; // every scalar static: distinct non-zero initialiser, assigned before use (tool note in harness/C16/model.rs)
+pub(crate) static mut HANDED: [(c_longlong, It); 4] = [(0x7311, 0xB1), (0x7312, 0xB2), (0x7313, 0xB3), (0x7314, 0xB4)]; // what the shared push was handed, in order
+pub(crate) static mut NHANDED: usize = 0x7302;
 /// occurrences of x among the recorded hand-overs (under priority k if given)
 pub(crate) unsafe fn handed_count(k: Option<c_longlong>, x: It) -> usize {
     let mut n = 0;
